@@ -98,6 +98,56 @@ impl Handler<Pong> for SvcA2 {
     }
 }
 
+/// Services nobody touches after registration. A server that holds them has a handler table of some size, so that two
+/// registry changes made at the same moment really overlap.
+pub struct Bystander<const N: u8>;
+impl<const N: u8> RpcService for Bystander<N> {
+    fn service_name() -> &'static str {
+        static NAMES: std::sync::Mutex<std::collections::BTreeMap<u8, &'static str>> = std::sync::Mutex::new(std::collections::BTreeMap::new());
+        let mut names = NAMES.lock().unwrap();
+        *names.entry(N).or_insert_with(|| Box::leak(format!("bystander-{N}").into_boxed_str()))
+    }
+    fn register_handlers(registry: &mut ServiceRegistry<Self>) {
+        registry.add_handler::<Ping>();
+        registry.add_handler::<Pong>();
+    }
+}
+#[datacake_rpc::async_trait]
+impl<const N: u8> Handler<Ping> for Bystander<N> {
+    type Reply = u64;
+    async fn on_message(&self, msg: Request<Ping>) -> Result<Self::Reply, Status> {
+        Ok(9_000_000 + N as u64 * 1000 + msg.value % 1000)
+    }
+}
+#[datacake_rpc::async_trait]
+impl<const N: u8> Handler<Pong> for Bystander<N> {
+    type Reply = u64;
+    async fn on_message(&self, msg: Request<Pong>) -> Result<Self::Reply, Status> {
+        Ok(9_500_000 + N as u64 * 1000 + msg.value % 1000)
+    }
+}
+macro_rules! add_bystanders {
+    ($server:expr, $($n:literal)*) => { $( $server.add_service(Bystander::<$n>); )* };
+}
+fn add_all_bystanders(server: &Server) {
+    add_bystanders!(server, 0 1 2 3 4 5 6 7 8 9 10 11 12 13 14 15 16 17 18 19 20 21 22 23 24 25 26 27 28 29 30 31
+        32 33 34 35 36 37 38 39 40 41 42 43 44 45 46 47 48 49 50 51 52 53 54 55 56 57 58 59 60 61 62 63);
+}
+
+/// One registry change, as a closure that can run on a thread of its own.
+fn registry_change<'a>(server: &'a Server, gate: &Gate, op: &Value) -> Box<dyn FnOnce() + Send + 'a> {
+    let (kind, svc) = (op[0].as_str().unwrap().to_string(), op[1].as_str().unwrap().to_string());
+    let gate = gate.clone();
+    Box::new(move || match (kind.as_str(), svc.as_str()) {
+        ("add", "A") => server.add_service(SvcA(gate)),
+        ("add", "B") => server.add_service(SvcB(gate)),
+        ("add", "C") => server.add_service(SvcC(gate)),
+        ("add", "A2") => server.add_service(SvcA2(gate)),
+        ("remove", s) => server.remove_service(service_name(s)),
+        other => panic!("bad registry change {other:?}"),
+    })
+}
+
 #[derive(Debug, PartialEq)]
 enum Probe {
     Served,
@@ -245,14 +295,49 @@ async fn run_history(hi: usize, h: &Value) -> HistResult {
     let steps = h["hist"].as_array().unwrap();
     let exps = h["exps"].as_array().unwrap();
     let mut observed_steps = vec![];
+    if steps.iter().any(|st| st[0] == "par") {
+        add_all_bystanders(&server);
+    }
     for (i, st) in steps.iter().enumerate() {
-        let (kind, svc) = (st[0].as_str().unwrap(), st[1].as_str().unwrap());
+        let (kind, svc) = (st[0].as_str().unwrap(), st[1].as_str().unwrap_or(""));
         match (kind, svc) {
             ("add", "A") => server.add_service(SvcA(gate.clone())),
             ("add", "B") => server.add_service(SvcB(gate.clone())),
             ("add", "C") => server.add_service(SvcC(gate.clone())),
             ("add", "A2") => server.add_service(SvcA2(gate.clone())),
             ("remove", s) => server.remove_service(service_name(s)),
+            ("par", _) => {
+                // the two changes are made by two threads that leave a spin barrier together
+                let (c1, c2) = (registry_change(&server, &gate, &st[1]), registry_change(&server, &gate, &st[2]));
+                let ready = std::sync::atomic::AtomicUsize::new(0);
+                std::thread::scope(|sc| {
+                    for c in [c1, c2] {
+                        let ready = &ready;
+                        sc.spawn(move || {
+                            ready.fetch_add(1, std::sync::atomic::Ordering::SeqCst);
+                            while ready.load(std::sync::atomic::Ordering::SeqCst) < 2 {
+                                std::hint::spin_loop();
+                            }
+                            c();
+                        });
+                    }
+                });
+                // and the bystanders are still served
+                res.probes += 1;
+                let n = (hi % 64) as u64;
+                let ok = match n % 4 {
+                    0 => probe::<Bystander<0>, Ping>(&chan, Ping { value: 5 }, 9_000_005).await,
+                    1 => probe::<Bystander<21>, Pong>(&chan, Pong { value: 5 }, 9_521_005).await,
+                    2 => probe::<Bystander<42>, Ping>(&chan, Ping { value: 5 }, 9_042_005).await,
+                    _ => probe::<Bystander<63>, Pong>(&chan, Pong { value: 5 }, 9_563_005).await,
+                };
+                if ok != Probe::Served {
+                    res.violation = Some(json!({"property": "C13", "hist": h["hist"], "step": i + 1,
+                        "why": [format!("two registry changes made at the same time disabled a service that neither of them names: {ok:?}")]}));
+                    break;
+                }
+                res.served += 1;
+            },
             ("hold", s) => {
                 // a request on the SAME connection that stays inside its handler (if it is dispatched at all)
                 let before = gate.entered.load(std::sync::atomic::Ordering::SeqCst);
